@@ -10,7 +10,7 @@ from bibtexparser.middlewares import (
 from bibtexparser.middlewares.names import NameParts
 from bibtexparser.model import Entry, Field
 
-from .. import harness
+from .. import harness, libgen
 from ..compare import canon
 
 PROP = "C15"
@@ -89,7 +89,7 @@ def o_apply(inp):
     field_obj = entry.fields[1]
     cur = lib
     for kind in inp["mws"]:
-        cur = MW[kind](allow_inplace_modification=inp["inplace"]).transform(cur)
+        cur = libgen.maybe_preuse(MW[kind](allow_inplace_modification=inp["inplace"]), (inp["v"], inp["mws"])).transform(cur)
     if not isinstance(cur, Library) or len(cur.blocks) != 2:
         return (("shape", f"{type(cur).__name__} with {len(getattr(cur, 'blocks', []))} blocks", "library of 2 blocks"), True, ())
     out_entry, out_other = cur.blocks
